@@ -558,7 +558,7 @@ func newUgmRun(c *UgmCase, st *Stats) *ugmRun {
 	return r
 }
 
-func (r *ugmRun) coq(lowerfix bool) string {
+func (r *ugmRun) coq(fixed bool) string {
 	us := make([]uint64, len(r.c.Users))
 	for i, u := range r.c.Users {
 		us[i] = ugmUser(u)
@@ -572,7 +572,7 @@ func (r *ugmRun) coq(lowerfix bool) string {
 		ps[i] = ugmPath(p)
 	}
 	return fmt.Sprintf("mkCase %s %s [%s] [0;1;2] %s %s [\n   %s]", ugmNList(us), ugmNList(gs), strings.Join(ps, ";"),
-		coqBool(r.c.Disciplined), coqBool(lowerfix), strings.Join(r.steps, ";\n   "))
+		coqBool(r.c.Disciplined), coqBool(fixed), strings.Join(r.steps, ";\n   "))
 }
 
 const ugmRequires = `From YK Require Import Base.Res Ugm.Tracker Ugm.Manager Ugm.UgmSpec Oracles.UgmCheck.
@@ -586,7 +586,7 @@ func ugmEngine(o *Opts) {
 	if replay {
 		readJSON(o.Replay, &all)
 	}
-	lowerfix := o.Variant != "nolower"
+	fixed := o.Variant != "pinned"
 	terms := []string{}
 	n := o.N
 	if replay {
@@ -608,7 +608,7 @@ func ugmEngine(o *Opts) {
 			c = &all.Cases[i]
 			r = genUgmCase(rng.Fork(), c, st, o.Tier)
 		}
-		t := r.coq(lowerfix)
+		t := r.coq(fixed)
 		terms = append(terms, t)
 		st.Panics += r.crashes
 		withLimits := false
